@@ -528,6 +528,71 @@ func r32OneInsertPerFeature(c *core.Ctx) {
 	c.Check(R, "extent-covers-every-feature/"+f.Name, update.Pos(), !noExt && extArg,
 		"every iteration feeds this feature's geometry to NewExtentFromGeometry/AddGeometry and the accumulated extent is what is merged into gpkg_contents",
 		"an iteration can complete without adding the feature's geometry to the page extent, or the extent passed to UpdateGeometryExtent is not the accumulated one")
+	// the page extent starts empty in every call (a page's extent carried over in the target would leak into the
+	// next table written through it), and no page leaves without merging its extent into the table's
+	{
+		var acc ssa.Value
+		if len(update.Call.Args) == 3 {
+			acc = update.Call.Args[2]
+		}
+		badLeaf := ""
+		seenL := map[ssa.Value]bool{}
+		var leaves func(v ssa.Value)
+		leaves = func(v ssa.Value) {
+			if v == nil || seenL[v] {
+				return
+			}
+			seenL[v] = true
+			switch x := v.(type) {
+			case *ssa.Phi:
+				for _, e := range x.Edges {
+					leaves(e)
+				}
+				return
+			case *ssa.Const:
+				if x.IsNil() {
+					return
+				}
+			case *ssa.Call:
+				if extHelper(x) {
+					return
+				}
+			}
+			if yieldsNewExtent(v) {
+				return
+			}
+			badLeaf += v.String() + " @" + c.P.Pos(v.Pos()) + "; "
+		}
+		leaves(acc)
+		c.Check(R, "page-extent-starts-empty/"+f.Name, update.Pos(), badLeaf == "" && acc != nil,
+			"the extent merged into the table's is nil or what this call's features started and grew", "the page extent does not start empty in every call: it is also "+badLeaf+"(state kept between calls reaches the extent of whatever table is written next)")
+		// (leaving with an extent that is still nil skips nothing: there is nothing to merge)
+		notNilSide := func(b *ssa.BasicBlock, k int) bool {
+			i := core.BlockIf(b)
+			if i == nil {
+				return true
+			}
+			bo, ok := i.Cond.(*ssa.BinOp)
+			if !ok || (bo.Op != token.EQL && bo.Op != token.NEQ) {
+				return true
+			}
+			l, r := bo.X, bo.Y
+			if isNilConst(l) {
+				l, r = r, l
+			}
+			if l != acc || !isNilConst(r) {
+				return true
+			}
+			nilSide := 0
+			if bo.Op == token.NEQ {
+				nilSide = 1
+			}
+			return k != nilSide
+		}
+		skipped, _ := core.Search{Fn: fn, From: header, Target: core.IsReturn, Barrier: instrIs(update), Edge: notNilSide}.Run()
+		c.Check(R, "page-extent-always-merged/"+f.Name, update.Pos(), !skipped,
+			"every return after the page loop lies behind UpdateGeometryExtent", "a page can be written without its extent being merged into the table's (return before UpdateGeometryExtent): the recorded extent misses that page")
+	}
 	// the extent accumulator is only updated by the two known idioms; anything else (ext.Add(other), …) is not understood
 	{
 		var acc ssa.Value
